@@ -48,6 +48,8 @@ def run_path(hname, params, prefix, validate=False):
     I = _G['I']
     h = HARNESSES[hname]
     I.start_path(prefix)
+    if _G.get('native') is not None:
+        _G['native'].tz = params.get('tz') if isinstance(params, dict) else None   # process time zone of the native observer for this job
     I.json_text = False   # per-path switch of the serde stub (set by the C20 harness); must not leak into the next job of this worker
     ctx = SymCtx(I)
     rec = dict(status='ok')
